@@ -1,4 +1,5 @@
 import Ledger.Proofs.ReplRace
+import Ledger.Proofs.ReplShared
 
 /-!
 # C33 — Replication delivers every log, in order, despite failures
@@ -195,6 +196,33 @@ theorem reset_restarts_from_first_counterexample :
       ¬ Delivered raceState2 1 ∧ ¬ Delivered raceState2 2 ∧ ¬ Acked raceState2 1 ∧ ¬ Acked raceState2 2 := by
   refine ⟨reach_run (ls := raceTrace2) Reach.init rfl, rfl, rfl, ?_, ?_, ?_, ?_⟩ <;>
     simp [Delivered, Acked, raceState2]
+
+/-! ## several pipelines sharing an exporter -/
+
+section shared
+open Ledger.Repl.Shared
+
+/-- After ANY sequence of manager operations (create / start / stop / reset / delete
+    of any pipeline, sync, manager stop and start) every running pipeline's exporter
+    has a started driver: stopping one pipeline never takes the driver away from a
+    sibling pipeline on the same exporter (`stopExporterIfNeeded`'s refcount rule). -/
+theorem running_pipeline_has_live_driver {s : MState} (r : MReach s) {p : Pipe} (hp : p ∈ s.running) :
+    p.exporter ∈ s.live :=
+  (live_reach r).driver p hp
+
+/-- …and no driver is left running without a pipeline that uses it. -/
+theorem live_driver_has_running_pipeline {s : MState} (r : MReach s) {e : Nat} (he : e ∈ s.live) :
+    ∃ p ∈ s.running, p.exporter = e :=
+  (live_reach r).user e he
+
+/-- non-vacuity: two ledgers on exporter 0; stopping (then resetting, deleting) one
+    pipeline keeps the driver for the other; stopping the last user releases it -/
+example :
+    let s := [MOp.create ⟨0, 0⟩, .create ⟨1, 0⟩, .stop ⟨0, 0⟩, .start ⟨0, 0⟩, .reset ⟨1, 0⟩, .delete ⟨0, 0⟩].foldl
+      mstep MState.init
+    s.running = [⟨1, 0⟩] ∧ s.live = [0] ∧ (mstep s (.stop ⟨1, 0⟩)).live = [] := by decide
+
+end shared
 
 /-! ## at least once -/
 
